@@ -576,9 +576,12 @@ def run_emptyok(chk, F, rid="R-EMPTYOK"):
         for fn in fns:
             def owner(x):
                 """'this' / name of the expression whose data is dereferenced, for `data->m` and `e.data->m`"""
-                if not (x.get("k") == "member" and x.get("arrow") and x.get("of", "").endswith("expression_data")):
+                if x.get("k") == "member" and x.get("arrow") and x.get("of", "").endswith("expression_data"):
+                    b = x.get("base")
+                elif x.get("k") == "call" and (x.get("cls") or "").endswith("expression_data") and x.get("recv") is not None:
+                    b = x.get("recv")       # a member function of the node called through data: `data->clone_with(..)`
+                else:
                     return None
-                b = x.get("base")
                 for y in walk(b):
                     if y.get("k") == "member" and y.get("name") == "data" and y.get("of") == "UTAP::expression_t":
                         bb = strip(y.get("base")) if y.get("base") is not None else None
@@ -615,7 +618,7 @@ def run_emptyok(chk, F, rid="R-EMPTYOK"):
                        "field of an incomplete initialiser is stored as one) makes it dereference a null pointer" %
                        (fn["q"], "data", site.get("name"), "the node" if who == "this" else "`%s`" % who),
                        "%s:%s" % (fn["file"], site.get("l")))
-    if n < 20:
+    if n < 8:
         raise AnalysisBroken("R-EMPTYOK: only %d accesses through data found" % n)
 
 
